@@ -103,17 +103,22 @@ def run(ctx):
         if not fb or not known or not bd:
             r.bad("shape", "anchor-missing: detect_binary (find_byte %d, offset-known test %d, mode match %d)" % (len(fb), len(known), len(bd)), fn=f)
         else:
-            removed = {known[0][1]}
-            # the `_ => return Ok(false)` arm: detection disabled
-            swbb, _, missing, ow, ow_live = bd[0]
-            if "None" in arms:
-                removed.add((swbb, arms["None"]))
-            else:
-                removed.add((swbb, ow))
-            esc = C.all_paths_pass(f, [0], {fb[0].bb}, f.return_blocks(), removed_edges=removed)
+            # value table over (offset already known, detection mode): with no offset known and detection on, no way out
+            # avoids the scan
+            from ..flow import always_after
+            esc = []
+            for mode in ("Quit", "Convert"):
+                def fm(owner, name, mode=mode):
+                    if owner == CORE and name == "binary_byte_offset":
+                        return V("None", None)
+                    if owner == "grep_searcher::searcher::BinaryDetection" and name == "0":
+                        return V(mode, I(0))
+                    return None
+                if not always_after(f, [c.bb for c in fb], f.return_blocks(), field_model=fm):
+                    esc.append(mode)
             if esc:
                 r.bad("scan", "detect_binary can return without scanning the range although no binary offset is known and detection "
-                      "is on: a NUL in a delivered line would reach the printer", fn=f, construct="scan")
+                      "is on (%s): a NUL in a delivered line would reach the printer" % ", ".join(esc), fn=f, construct="scan")
             else:
                 r.ok("scan", "every path scans unless (offset already known) or (detection None)", fn=f)
             hay = eb.operand(fb[0].args[0])
